@@ -58,7 +58,16 @@ enum ConnType {
     Tls(TlsStream<TcpStream>),
     #[cfg(unix)]
     Unix(UnixStream),
+    #[cfg(ldap3_verif)]
+    Verif(Box<dyn VerifIo>),
 }
+
+/// Verification hook: any in-memory transport the harness supplies.
+#[cfg(ldap3_verif)]
+pub trait VerifIo: AsyncRead + AsyncWrite + Unpin + Send + std::fmt::Debug {}
+
+#[cfg(ldap3_verif)]
+impl<T: AsyncRead + AsyncWrite + Unpin + Send + std::fmt::Debug> VerifIo for T {}
 
 #[cfg(feature = "tls-rustls")]
 #[derive(Debug)]
@@ -157,6 +166,8 @@ impl AsyncRead for ConnType {
             ConnType::Tls(tls) => Pin::new(tls).poll_read(cx, buf),
             #[cfg(unix)]
             ConnType::Unix(us) => Pin::new(us).poll_read(cx, buf),
+            #[cfg(ldap3_verif)]
+            ConnType::Verif(io) => Pin::new(io).poll_read(cx, buf),
         }
     }
 }
@@ -169,6 +180,8 @@ impl AsyncWrite for ConnType {
             ConnType::Tls(tls) => Pin::new(tls).poll_write(cx, buf),
             #[cfg(unix)]
             ConnType::Unix(us) => Pin::new(us).poll_write(cx, buf),
+            #[cfg(ldap3_verif)]
+            ConnType::Verif(io) => Pin::new(io).poll_write(cx, buf),
         }
     }
 
@@ -179,6 +192,8 @@ impl AsyncWrite for ConnType {
             ConnType::Tls(tls) => Pin::new(tls).poll_flush(cx),
             #[cfg(unix)]
             ConnType::Unix(us) => Pin::new(us).poll_flush(cx),
+            #[cfg(ldap3_verif)]
+            ConnType::Verif(io) => Pin::new(io).poll_flush(cx),
         }
     }
 
@@ -189,6 +204,8 @@ impl AsyncWrite for ConnType {
             ConnType::Tls(tls) => Pin::new(tls).poll_shutdown(cx),
             #[cfg(unix)]
             ConnType::Unix(us) => Pin::new(us).poll_shutdown(cx),
+            #[cfg(ldap3_verif)]
+            ConnType::Verif(io) => Pin::new(io).poll_shutdown(cx),
         }
     }
 }
@@ -660,6 +677,12 @@ impl LdapConnAsync {
             warn!("no peer certificates found");
             None
         }
+    }
+
+    /// Verification hook: build a connection over a caller-supplied transport.
+    #[cfg(ldap3_verif)]
+    pub fn verif_from_io(io: Box<dyn VerifIo>) -> (Self, Ldap) {
+        Self::conn_pair(ConnType::Verif(io))
     }
 
     fn conn_pair(ctype: ConnType) -> (Self, Ldap) {
